@@ -62,6 +62,19 @@ Definition run_prfplus (x : sx) : sx :=
   | _ => bad_input
   end.
 
+(** same, for long outputs: [length; last 64 octets] (a 30 kB hexadecimal literal overflows coqc's stack) *)
+Definition run_prfplus_tail (x : sx) : sx :=
+  match x with
+  | SxL [SxZ pid; k; s; SxZ n] =>
+      match get_bytes k, get_bytes s with
+      | Some k, Some s =>
+          sx_result (fun b => SxL [sx_nat (List.length b); sx_bytes (skipn (List.length b - 64) b)])
+                    (bind (prf_new pid) (fun h => prfplus toy_hmac h k s n))
+      | _, _ => bad_input
+      end
+  | _ => bad_input
+  end.
+
 (** [prf; integ; encr; keylen|None; is_initiator; role(0 direct,1 responder call site,2 initiator call site);
      a; b; c; d; secret; old_sk_d|None]
     role 0: (a,b,c,d) = (nonce_i, nonce_r, spi_i, spi_r); roles 1/2: (request nonce, response nonce, my spi, peer spi)
@@ -134,6 +147,7 @@ Definition run_dh_public (x : sx) : sx :=
 Definition run (x : sx) : sx :=
   match x with
   | SxL [SxS "prfplus"; y] => run_prfplus y
+  | SxL [SxS "prfplus_tail"; y] => run_prfplus_tail y
   | SxL [SxS "ike"; y] => run_ike y
   | SxL [SxS "child"; y] => run_child y
   | SxL [SxS "sizes"; y] => run_sizes y
